@@ -12,7 +12,7 @@ BASE_DAY = 1685577600  # 2023-06-01 00:00:00, a multiple of 86400
 
 REGIMES = ("walk", "up", "down", "flat", "flatbody", "gap", "spike")
 _SWITCH = st.sampled_from((None,) * 17 + REGIMES[0:1] * 2 + REGIMES[1:])  # persist with p ~ 0.7..0.85
-_VOLUME = st.sampled_from((0, 0, 0, 1, 1, 2, 2, 3, 5, 5, 7, 100, 12345, 1000000))
+_VOLUME = st.sampled_from((0, 0, 0, 1, 1, 2, 2, 3, 5, 5, 7, 100, 12345, 1000000, 0.5, 2.25))  # incl. fractional lots (dyadic: exact sums)
 _GRID = st.sampled_from(((1.0, 0), (0.25, 2), (0.01, 2)))
 _BASE = st.sampled_from((20, 100, 100, 10_000, 1_000_000))
 
